@@ -1,4 +1,5 @@
 import SFV.Proofs.Compare
+import SFV.Proofs.CompareGauss
 
 /-!
 # C18 — programs reported equal or equivalent really compute the same thing
@@ -128,6 +129,40 @@ theorem equiv_of_reorder_partial (l1 l2 : List Cmd) (hp : l1 ∈ perms l2)
       · exact ih hab
   simp [this]
 
+/-! ### the physical instance: Gaussian gates, no hypothesis about the interpretation
+
+`GaussSem.g18 θ` interprets every command as the Gaussian channel (on first and second moments, `hbar = 2`) that the
+documentation gives for its class — rotation, squeezing, displacement, shear, beamsplitter, two-mode squeezing, `CX`, `CZ`
+(`SFV.Proofs.OptimizeGauss`) — for the values `θ` of the symbolic parameters; classes the comparison treats as mode-symmetric
+are read on their sorted modes. -/
+
+open GaussSem in
+/-- **the mode-symmetric classes really are symmetric**: `S2(z)` and `CZ(s)` on `(k, l)` and `(l, k)` are the same channel for
+all parameter values, `CX(0)` is the identity, and a beamsplitter with `cos φ = 0` is symmetric for every `θ` — these are the
+cases in which `program_equivalence` compares the wires as a set -/
+theorem symmetric_classes_are_symmetric (k l : Nat) (hkl : k ≠ l) (φ x s ct sn : ℝ) :
+    (s2Loc k l φ x).act = (s2Loc l k φ x).act ∧ (czLoc k l x).act = (czLoc l k x).act ∧ (cxLoc k l 0).act = 1 ∧
+    (bsLocAt k l 0 s ct sn).act = (bsLocAt l k 0 s ct sn).act :=
+  ⟨s2_swap k l hkl φ x, cz_swap k l hkl x, cx_zero k l hkl, bs_swap k l hkl s ct sn⟩
+
+/-- … and a beamsplitter with a *real* reflection coefficient (`φ = 0`) is not: treating it as symmetric (the slip of a seeded
+change, `cos 2θ = 0 ∧ sin 2φ = 0` instead of `φ ≡ π/2`) would make the comparison unsound -/
+theorem real_beamsplitter_is_not_symmetric :
+    (GaussSem.bsLocAt 0 1 1 0 (3/5) (4/5)).act ≠ (GaussSem.bsLocAt 1 0 1 0 (3/5) (4/5)).act :=
+  GaussSem.bs_real_reflection_not_symmetric
+
+/-- reading a symmetric class on its sorted modes is reading it on its modes as written -/
+theorem symmetric_reading_is_as_written (θ : Nat → Rat) (c : Cmd) (k l : Nat) (hkl : k ≠ l) (hr : c.regs = [k, l])
+    (p : Par) (t : List Par) (hp : c.pars = p :: t) (hs : symmetricCls c = true) :
+    GaussSem.g18 θ c = (GaussSem.sym2 θ c.cls k l t (GaussSem.par0 θ c p)).act :=
+  GaussSem.g18_symmetric_as_written θ c k l hkl hr p t hp hs
+
+/-- **equivalent programs prepare the same Gaussian state**: for every pair of circuits, every valuation of the symbolic
+parameters — nothing is assumed about the interpretation any more -/
+theorem equiv_sound_gaussian (θ : Nat → Rat) (l1 l2 : List Cmd) (hn : l2.Nodup) (h : programEquiv l1 l2 = true) :
+    sem (GaussSem.g18 θ) l1 = sem (GaussSem.g18 θ) l2 :=
+  equiv_sound (GaussSem.g18 θ) (GaussSem.g18_nodeKey θ) (GaussSem.g18_comm θ) l1 l2 hn h
+
 /-! ### non-vacuity -/
 def p1 : List Cmd :=
   [ { id := 0, cls := "Sgate", regs := [2], pars := [.num (1/2), .num 0] },
@@ -141,5 +176,13 @@ example : p2.Nodup ∧ programEquiv p1 p2 = true ∧ programEq "" "" [] [] p1 p2
 example : programEquiv p1 [p2[0]!, p2[1]!, { p2[2]! with regs := [0, 2] }] = false ∧
     programEquiv p1 [{ p2[0]! with dagger := false }, p2[1]!, p2[2]!] = false ∧
     programEq "" "" [] [] p1 (p1.take 2) = false ∧ programEquiv p1 (p2.take 2) = false := by decide +kernel
+
+/-- a two-mode squeezer written on `(1, 0)` instead of `(0, 1)`: equivalent, hence the same Gaussian channel -/
+def s2a : List Cmd := [ { id := 0, cls := "S2gate", regs := [0, 1], pars := [.num (1/2), .num (1/4)] } ]
+def s2b : List Cmd := [ { id := 7, cls := "S2gate", regs := [1, 0], pars := [.num (1/2), .num (1/4)] } ]
+example (θ : Nat → Rat) : sem (GaussSem.g18 θ) s2a = sem (GaussSem.g18 θ) s2b :=
+  equiv_sound_gaussian θ s2a s2b (by decide) (by decide +kernel)
+example (θ : Nat → Rat) : sem (GaussSem.g18 θ) p1 = sem (GaussSem.g18 θ) p2 :=
+  equiv_sound_gaussian θ p1 p2 (by decide) (by decide +kernel)
 
 end SFV.C18
